@@ -127,7 +127,17 @@ def mkjob(inst: Instance, none_tasks: frozenset[str] = frozenset()) -> JobInstan
         # registration order matters to nobody: each type keeps its own serialiser
         serdes = {type_enc(bodies.Boxed): ("harness.sim.bodies.ser_boxed", "harness.sim.bodies.des_boxed"),
                   type_enc(bodies.Tagged): ("harness.sim.bodies.ser_tagged", "harness.sim.bodies.des_tagged")}
-    return JobInstance(tasks=tasks, edges=edges, ext_outputs=[DatasetId(t, o) for t, o in inst.ext], serdes=serdes)
+    # the order of the edge list carries no meaning: list the edges so that those into one task are as far apart as possible
+    # (round-robin over the sink tasks) - nothing may rely on edges of a task being adjacent
+    by_sink: dict[str, list] = collections.defaultdict(list)
+    for e in edges:
+        by_sink[e.sink_task].append(e)
+    spread = []
+    while any(by_sink.values()):
+        for k in sorted(by_sink):
+            if by_sink[k]:
+                spread.append(by_sink[k].pop(0))
+    return JobInstance(tasks=tasks, edges=spread, ext_outputs=[DatasetId(t, o) for t, o in inst.ext], serdes=serdes)
 
 
 def sequential(inst: Instance, none_tasks: frozenset[str] = frozenset()) -> dict[tuple[str, str], Any]:
